@@ -298,3 +298,17 @@ Proof.
   replace (Nat.leb (List.length pre + 1) (List.length pre + 1)) with true by (symmetry; apply Nat.leb_le; lia).
   rewrite Ht. reflexivity.
 Qed.
+
+(* ---- non-vacuity: premises are inhabited, results are non-degenerate (closed by computation) ------------------ *)
+(* C02_dtc_records / C11_dtc_tolerant: three well-formed non-zero records after a two-byte header, seven pad bytes *)
+Definition c02_recs : list (Z * Z) := [(1193046, 47); (1, 255); (16777215, 8)].
+Example c02_records_wf : Forall wf_rec4 c02_recs /\ Forall (fun x => x <> (0, 0)) c02_recs.
+Proof. split; repeat constructor; unfold wf_rec4; cbn; try lia; intros H; discriminate H. Qed.
+Example c11_padded_decodes :
+  let pc := {| pc_tol := true; pc_ign := true; pc_snap := 2; pc_dids := [] |} in
+  loop_records 20 pc 2 false ([2; 255] ++ recs4 c02_recs ++ repeat 0 7) 2 [] = inr (map dtc4 c02_recs).
+Proof. vm_compute. reflexivity. Qed.
+Example c11_strict_refuses :
+  let pc := {| pc_tol := false; pc_ign := true; pc_snap := 2; pc_dids := [] |} in
+  loop_records 20 pc 2 false ([2; 255] ++ recs4 c02_recs ++ repeat 0 3) 2 [] = inl EInvalid.
+Proof. vm_compute. reflexivity. Qed.
